@@ -101,6 +101,14 @@ impl RPayload {
     pub fn is_empty(&self) -> (r: bool) ensures r == (self.len == 0) { self.len == 0 }
 }
 
+/// A received trailers HEADERS frame, reduced to an opaque tag for its field list (frame::Headers in /repo; the field
+/// contents are checked by HeaderBlock::load / the frame__headers.rs harnesses, not here).
+#[derive(Clone, Copy, Debug)]
+pub struct RTrailers { pub fields: u8 }
+impl RTrailers {
+    pub fn into_fields(self) -> (r: u8) ensures r == self.fields { self.fields }
+}
+
 impl RData {
     pub open spec fn fc_len(self) -> int {
         self.payload_len + (match self.pad { Some(p) => p as int + 1, None => 0 })
@@ -273,6 +281,28 @@ impl Recv {
     //@spec                     // C06: the reader is woken when something was delivered
     //@spec                     && (!(frame.payload_len == 0 && !frame.eos) ==> final(stream).recv_task is None))
     //@spec         },
+    //@end
+
+    //@extract src/proto/streams/recv.rs Recv::recv_trailers
+    //@subst frame: frame::Headers=>frame: RTrailers
+    //@subst stream: &mut store::Ptr=>stream: &mut Stream
+    //@ret r
+    //@spec     ensures
+    //@spec         *final(self) == (Recv { buffer: final(self).buffer, ..*old(self) }),
+    //@spec         // C09/C17: trailers on a stream whose receive half is not open: connection PROTOCOL_ERROR, nothing delivered
+    //@spec         old(stream).state.after_recv_end_stream() is None ==>
+    //@spec             r == Err::<(), Error>(Error::GoAway(Reason::PROTOCOL_ERROR, Initiator::Library)) && *final(stream) == *old(stream),
+    //@spec         // C13: the body was shorter than the declared content-length: the message is malformed — stream error
+    //@spec         // PROTOCOL_ERROR, and the trailers are NOT handed to the application
+    //@spec         (old(stream).state.after_recv_end_stream() is Some && (old(stream).content_length matches ContentLength::Remaining(rem) && rem != 0)) ==>
+    //@spec             r == Err::<(), Error>(Error::Reset(old(stream).id, Reason::PROTOCOL_ERROR, Initiator::Library))
+    //@spec             && final(stream).pending_recv@ == old(stream).pending_recv@,
+    //@spec         // C01: otherwise the trailers are the LAST event of the stream, behind everything already queued, the receive
+    //@spec         // half is closed exactly as by END_STREAM, and the reader is woken (C06)
+    //@spec         (old(stream).state.after_recv_end_stream() is Some && !(old(stream).content_length matches ContentLength::Remaining(rem) && rem != 0)) ==>
+    //@spec             r is Ok && final(stream).pending_recv@ == old(stream).pending_recv@.push(Event::Trailers(frame.fields))
+    //@spec             && *final(stream) == (Stream { state: final(stream).state, pending_recv: final(stream).pending_recv, recv_task: None, ..*old(stream) })
+    //@spec             && final(stream).state.inner == old(stream).state.after_recv_end_stream()->Some_0,
     //@end
 
     //@extract src/proto/streams/recv.rs Recv::clear_recv_buffer
